@@ -22,6 +22,9 @@
             ("{% block req required %}{% endblock %}", None), ("{% do nofunc() %}", None), ("{% filter nofilter %}x{% endfilter %}", None),
             ("{% autoescape 'nomode' %}{{ x }}{% endautoescape %}", None), ("{{ 2 ** 200 }}", None), ("{{ -(-170141183460469231731687303715884105727 - 1) }}", None),
             ("{% set q = 1 // 0 %}", None), ("{% with q = 1 // 0 %}{% endwith %}", None), ("{% if 1 // 0 %}{% endif %}", None), ("{{ x.nope.nope }}", None),
+            // statements whose own instruction fails after a located (non-constant) sub-expression was compiled
+            ("{% autoescape cfg.mode %}y{% endautoescape %}", None), ("{% include cfg.name %}", None), ("{% extends cfg.name %}", None), ("{% import cfg.name as m %}", None),
+            ("{% from cfg.name import a %}", None), ("{% for a, b in [cfg.pair] %}{% endfor %}", None), ("{% include [cfg.missing1, cfg.missing2] %}", None), ("{% set a, b = cfg.pair %}", None),
             ("{% set c %}{{ 1 // 0 }}{% endset %}", None), ("{{ [1]|map('nofilter')|list }}", None), ("{{ dict(a=1)|items|first|first|first|nofilter }}", None),
         ];
         fn check_error(e: &crate::Error, src: &str, name: &str) {
@@ -48,7 +51,7 @@
             env.set_debug(true);
             match env.add_template("t.txt", src) {
                 Err(e) => e,
-                Ok(()) => match env.get_template("t.txt").unwrap().render(crate::context! { x => 1 }) {
+                Ok(()) => match env.get_template("t.txt").unwrap().render(crate::context! { x => 1, cfg => crate::context! { mode => "nomode", name => 42, pair => 5, missing1 => "nope1.txt", missing2 => "nope2.txt" } }) {
                     Err(e) => e,
                     Ok(o) => panic!("{src:?} unexpectedly rendered {o:?}"),
                 },
@@ -71,6 +74,42 @@
                             let shift = prefix.len() + pad.len();
                             assert!(r.start == r0.start + shift && r.end == r0.end + shift, "{construct:?}: range {r:?} not shifted by {shift} from {r0:?}");
                         }
+                    }
+                }
+            }
+        }
+        // the failing construct inside / after constructs that leave location state behind in the code generator (a call
+        // block's call expression, an attribute assignment, multi-line tags): the error still names the construct's own
+        // line, and lines inserted directly above it shift the line by exactly their number
+        {
+            let frames: &[(&str, &str)] = &[
+                ("{% set ns = namespace() %}{% set ns.attr = 1 %}\n", ""),
+                ("{% macro w() %}{{ caller() }}{% endmacro %}{% call w() %}\n", "\n{% endcall %}"),
+                ("{% macro w2(a) %}{{ caller() }}{% endmacro %}{% call w2(a=[1,\n 2]) %}\n", "\n{% endcall %}"),
+                ("{% for i in [1] %}\n", "\n{% endfor %}"), ("{% with a = [1,\n2] %}\n", "{% endwith %}"), ("{% if true %}\n", "{% endif %}"),
+                ("{% filter upper %}\n", "{% endfilter %}"), ("{% set cap %}\n", "{% endset %}"), ("{{ [1,\n 2,\n 3]|length }}\n", ""),
+                ("{% set ns = namespace() %}\n{% set ns.a, b = [1,\n 2] %}\n", ""), ("{% autoescape true %}\n", "{% endautoescape %}"),
+            ];
+            for (construct, _) in cases {
+                // run-time failures only: a lexer / parser error that runs to the end of the input is located by what follows it
+                if Environment::new().template_from_str(construct).is_err() { continue; }
+                let plain = render_err(construct);
+                for (open, close) in frames {
+                    let mk = |n: usize| format!("{open}{}{construct}{close}", "filler {{ 1 }}\n".repeat(n));
+                    let src0 = mk(0);
+                    let base = render_err(&src0);
+                    check_error(&base, &src0, "t.txt");
+                    // same error as without the frame: it must sit on the construct's own line
+                    if base.kind() == plain.kind() && base.detail() == plain.detail() {
+                        let want = open.matches('\n').count() + plain.line().unwrap();
+                        assert!(base.line() == Some(want), "{src0:?}: error reported on line {:?}, the failing construct {construct:?} is on line {want}", base.line());
+                    }
+                    for &n in &[1usize, 3] {
+                        let src = mk(n);
+                        let e = render_err(&src);
+                        check_error(&e, &src, "t.txt");
+                        assert!(e.kind() == base.kind() && e.detail() == base.detail(), "{src:?}: error changed with lines inserted above");
+                        assert!(e.line() == Some(base.line().unwrap() + n), "{src0:?} with {n} lines inserted directly above the failing construct: line {:?}, before {:?}", e.line(), base.line());
                     }
                 }
             }
